@@ -482,7 +482,7 @@ def case(ctx, rng, idx, state):
     else:
         state["mp"].Pool = SerialPool
         ctx.count("cases_with_serial_pool_standin")
-    if rng.random() < 0.1:
+    if idx % 8 == 5:
         mp, NB = (1, 1, 1), 1            # one-line .eig file
     else:
         mp = MP_GRIDS[int(rng.integers(len(MP_GRIDS)))]
